@@ -4,6 +4,7 @@ import (
 	"context"
 	"encoding/json"
 	"fmt"
+	"sort"
 	"time"
 
 	ipfslog "berty.tech/go-ipfs-log"
@@ -14,44 +15,35 @@ import (
 
 var wlKeys = []string{"a", "b", "c", "d"}
 
-// RandomWrite performs one write of a kind suitable for the cluster's store type, chosen by
-// the run. It returns nil when the chosen operation was legitimately refused (document
-// delete of an absent key).
-func (c *Cluster) RandomWrite(node int) *WriteRec {
+// WritePlan is one drawn write: what it is called, how to run it, and whether the store may
+// legitimately refuse it (document delete of an absent key).
+type WritePlan struct {
+	Name      string
+	F         func(ctx context.Context) (operation.Operation, error)
+	MayRefuse bool
+	What      string
+}
+
+// PlanWrite draws one write of a kind suitable for the cluster's store type.
+func (c *Cluster) PlanWrite(node int) *WritePlan {
 	k := c.K
 	s := c.Stores[node]
 	switch st := s.(type) {
 	case iface.KeyValueStore:
 		key := wlKeys[k.C.Intn(len(wlKeys))]
 		if k.C.Chance(1, 4) {
-			wr, err := c.Write(node, "del "+key, func(ctx context.Context) (operation.Operation, error) { return st.Delete(ctx, key) })
-			if err != nil {
-				k.Failf("write-error", "kv delete by authorised writer failed: %v", err)
-			}
-			return wr
+			return &WritePlan{Name: "del " + key, What: "kv delete", F: func(ctx context.Context) (operation.Operation, error) { return st.Delete(ctx, key) }}
 		}
 		val := c.NextVal(node)
-		wr, err := c.Write(node, "put "+key+"="+val, func(ctx context.Context) (operation.Operation, error) { return st.Put(ctx, key, []byte(val)) })
-		if err != nil {
-			k.Failf("write-error", "kv put by authorised writer failed: %v", err)
-		}
-		return wr
+		return &WritePlan{Name: "put " + key + "=" + val, What: "kv put", F: func(ctx context.Context) (operation.Operation, error) { return st.Put(ctx, key, []byte(val)) }}
 	case iface.EventLogStore:
 		val := c.NextVal(node)
-		wr, err := c.Write(node, "add "+val, func(ctx context.Context) (operation.Operation, error) { return st.Add(ctx, []byte(val)) })
-		if err != nil {
-			k.Failf("write-error", "eventlog add by authorised writer failed: %v", err)
-		}
-		return wr
+		return &WritePlan{Name: "add " + val, What: "eventlog add", F: func(ctx context.Context) (operation.Operation, error) { return st.Add(ctx, []byte(val)) }}
 	case iface.DocumentStore:
 		key := wlKeys[k.C.Intn(len(wlKeys))]
 		switch k.C.Intn(5) {
 		case 0:
-			wr, err := c.Write(node, "docdel "+key, func(ctx context.Context) (operation.Operation, error) { return st.Delete(ctx, key) })
-			if err != nil {
-				return nil // absent key: refused
-			}
-			return wr
+			return &WritePlan{Name: "docdel " + key, What: "doc delete", MayRefuse: true, F: func(ctx context.Context) (operation.Operation, error) { return st.Delete(ctx, key) }}
 		case 1:
 			n := k.C.Range(1, 3)
 			var docs []interface{}
@@ -62,23 +54,123 @@ func (c *Cluster) RandomWrite(node int) *WriteRec {
 				docs = append(docs, map[string]interface{}{"_id": kk, "v": v})
 				desc += kk + "=" + v + ","
 			}
-			wr, err := c.Write(node, "putall "+desc, func(ctx context.Context) (operation.Operation, error) { return st.PutAll(ctx, docs) })
-			if err != nil {
-				k.Failf("write-error", "doc putall by authorised writer failed: %v", err)
-			}
-			return wr
+			return &WritePlan{Name: "putall " + desc, What: "doc putall", F: func(ctx context.Context) (operation.Operation, error) { return st.PutAll(ctx, docs) }}
 		default:
 			val := c.NextVal(node)
-			wr, err := c.Write(node, "docput "+key+"="+val, func(ctx context.Context) (operation.Operation, error) {
+			return &WritePlan{Name: "docput " + key + "=" + val, What: "doc put", F: func(ctx context.Context) (operation.Operation, error) {
 				return st.Put(ctx, map[string]interface{}{"_id": key, "v": val})
-			})
-			if err != nil {
-				k.Failf("write-error", "doc put by authorised writer failed: %v", err)
-			}
-			return wr
+			}}
 		}
 	}
 	return nil
+}
+
+// RandomWrite performs one write of a kind suitable for the cluster's store type, chosen by
+// the run. It returns nil when the chosen operation was legitimately refused (document
+// delete of an absent key).
+func (c *Cluster) RandomWrite(node int) *WriteRec {
+	p := c.PlanWrite(node)
+	if p == nil {
+		return nil
+	}
+	wr, err := c.Write(node, p.Name, p.F)
+	if err != nil {
+		if p.MayRefuse {
+			return nil
+		}
+		c.K.Failf("write-error", "%s by authorised writer failed: %v", p.What, err)
+	}
+	return wr
+}
+
+// WriteBurst runs nw concurrent writers (one drawn write each) on one replica. With park set
+// every writer stops at the three write-path points (after the log append, after the heads
+// are persisted, after the view update) and the kernel, in a drawn order, either releases one
+// parked writer or takes an ordinary step (deliveries, fetches: replication goes on while
+// writers sit between two of their steps). Without park the writers interleave at the
+// inserted yield points only. Returns the acknowledged writes in the order they returned.
+func (c *Cluster) WriteBurst(node, nw int, park bool) []*WriteRec {
+	k := c.K
+	st := c.Stores[node]
+	seen := LogHashSet(st)
+	if park {
+		k.InstallHooks(func(pt string, owner interface{}) bool {
+			switch pt {
+			case "store.after-append", "store.after-head-persisted", "store.after-index":
+				return OwnerStoreID(owner) == c.Addr
+			}
+			return false
+		})
+	}
+	type bw struct {
+		p  *WritePlan
+		op *Op
+	}
+	var ws []*bw
+	for i := 0; i < nw; i++ {
+		p := c.PlanWrite(node)
+		if p == nil {
+			continue
+		}
+		w := &bw{p: p}
+		w.op = k.Go(node, p.Name, func() (interface{}, error) {
+			ctx, cancel := OpCtx(10 * time.Minute)
+			defer cancel()
+			return p.F(ctx)
+		})
+		ws = append(ws, w)
+	}
+	allDone := func() bool {
+		for _, w := range ws {
+			if !k.IsDone(w.op) {
+				return false
+			}
+		}
+		return true
+	}
+	maxParked := 0
+	for i := 0; i < 600 && !allDone(); i++ {
+		k.Wait()
+		ps := k.Parks()
+		if len(ps) > maxParked {
+			maxParked = len(ps)
+		}
+		if len(ps) > 0 && k.C.Chance(3, 5) {
+			k.bump()
+			k.ReleaseOne(k.C.Intn(len(ps)))
+			continue
+		}
+		k.Step()
+	}
+	if park {
+		UninstallHooks()
+		k.ReleaseAllParks()
+	}
+	k.Wait()
+	for i := 0; i < 200 && !allDone(); i++ {
+		k.Step()
+		k.Wait()
+	}
+	if !allDone() {
+		k.Failf("write/hang", "concurrent local writes on n%d did not return: pending=%v", node, k.PendingDesc())
+	}
+	if maxParked >= 2 {
+		k.W.Stat("burst-writers-parked-together")
+	}
+	k.W.Stat("write-burst")
+	sort.SliceStable(ws, func(i, j int) bool { return ws[i].op.RetSeq < ws[j].op.RetSeq })
+	var out []*WriteRec
+	for _, w := range ws {
+		if w.op.Err != nil {
+			if w.p.MayRefuse {
+				continue
+			}
+			k.Failf("write-error", "%s by authorised writer (one of %d concurrent) failed: %v", w.p.What, nw, w.op.Err)
+		}
+		o := w.op.Val.(operation.Operation)
+		out = append(out, c.RecordWrite(node, w.op, o.GetEntry(), seen))
+	}
+	return out
 }
 
 // CopyHeads returns deep copies (JSON round trip, as on the wire) of entries, so that two
